@@ -86,7 +86,7 @@ MORE = {
              note="std HashMap as keyed container of concrete size; clock = scenario time (integers); registry abstract at recorder level; decision tables from an arbitrary internal state are skipped on a tree with another bookkeeping layout (the histories do not depend on it)"),
  "C13": dict(text="; E3: Fanout[r1,r2] <- PrefixLayer <- PrefixLayer built by the real constructors, describe + register twice + update through the second handle reach each recorder exactly once with both prefixes (names that already begin with a prefix included); router (two and three routes; radix_trie get_ancestor = longest stored key that is a prefix, get_raw_ancestor at nibble level with branch nodes) / filter through their real constructors, filter by pattern containment with ASCII case folding, each setter on its own between two layer() calls"),
  "C14": dict(text="; releases with a layout that does not match the allocation (CBMC's rust_dealloc / free checks) are confirmed natively by a checking global allocator; values sharing a start address but not a length compare unequal"),
- "C15": dict(text="; rolling summary: for 2-4 samples with any non-decreasing timestamps, any bucket duration and 1-3 buckets, the snapshot (sketch = multiset of samples) contains no sample older than the window, every sample well inside it, and the total count is the number of samples; recorder level: _count survives any quiet time and upkeep; for samples in any timestamp order (a drain hands the newest storage block over first) the cumulative count is the number of samples and add() terminates; precedence counterexamples are replayed through PrometheusBuilder::set_buckets_for_metric",
+ "C15": dict(text="; rolling summary: for 2-3 samples with any non-decreasing timestamps, any bucket duration and 1-3 buckets, the snapshot (sketch = multiset of samples) contains no sample older than the window, every sample well inside it, and the total count is the number of samples; recorder level: _count survives any quiet time and upkeep; for samples in any timestamp order (a drain hands the newest storage block over first) the cumulative count is the number of samples and add() terminates; precedence counterexamples are replayed through PrometheusBuilder::set_buckets_for_metric",
              note="<=3 bounds, <=3 samples (Kani); two overrides with patterns of 1-2 ASCII name characters (what the builder's sanitisation lets through); which samples the quantiles cover is specified for samples in time order only; DDSketch accuracy is outside the claim"),
  "C16": dict(text="; the sample rate does not change while the drain is iterated; a value pushed while a drain is held is yielded by the next drain, once; E3 schedules (1-2 pushers || consume): only this cycle's values, none twice, within capacity none lost outside the two recorded mechanisms K9 / K10",
              note="uniformity of rand's random_range and the induction are trusted; capacity <= 2"),
